@@ -1618,6 +1618,16 @@ func (stmt *UpsertIntoStmt) execAt(ctx context.Context, tx *SQLTx, params map[st
 			return nil, err
 		}
 
+		// an explicit value for the AUTO_INCREMENT key moves the counter of this
+		// transaction forward, otherwise the next generated key collides with it
+		if table.autoIncrementPK {
+			if pkVal, ok := valuesByColID[table.primaryIndex.cols[0].id]; ok && !pkVal.IsNull() {
+				if nl, isNumber := pkVal.RawValue().(int64); isNumber && nl > table.maxPK {
+					table.maxPK = nl
+				}
+			}
+		}
+
 		// Capture row for RETURNING clause
 		capturedRow := &Row{
 			ValuesByPosition: make([]TypedValue, len(r.ValuesByPosition)),
